@@ -305,7 +305,10 @@ pub fn build_world(w: &[u32; WORLD_WORDS], p: &Profile) -> WorldSpec {
         }
         v
     };
-    let approvers: Vec<String> = {
+    let approvers: Vec<String> = if gate(w[12].rotate_left(9), 50) {
+        // a market without approvers is coherent: nobody can approve
+        vec![]
+    } else {
         let mut v = vec![POOL[2 + pick(w[12], 3)].to_string()];
         if gate(w[13], 350) {
             let second = POOL[1 + pick(w[13] << 7, 5)].to_string();
@@ -607,6 +610,13 @@ impl<'a> Interp<'a> {
         let mut size = size_of(w[3], cfg.increment);
         let mut id = uuid_of(self.next_ask);
         self.next_ask += 1;
+        // the canonical spelling of a UUID that a legacy order carries un-hyphenated: a
+        // different id, and a legal one
+        if gate(w[10], 250) {
+            if let Some(t) = twin_of_legacy(book.asks.keys(), |k| book.asks.contains_key(k)) {
+                id = t;
+            }
+        }
         let mut funds = self.escrow(&base, size);
         if faulty {
             match pick(fw, 20) {
@@ -686,6 +696,11 @@ impl<'a> Interp<'a> {
         }
         let mut id = uuid_of(self.next_bid);
         self.next_bid += 1;
+        if gate(w[11], 250) {
+            if let Some(t) = twin_of_legacy(book.bids.keys(), |k| book.bids.contains_key(k)) {
+                id = t;
+            }
+        }
         let total = match parse(&price) {
             Parsed::Num(p) => p.mul_u128(size).as_u128().unwrap_or(0),
             _ => 0,
@@ -1131,6 +1146,19 @@ impl<'a> Interp<'a> {
             msg: ch.to_modify(),
         }
     }
+}
+
+/// hyphenated spelling of an un-hyphenated (legacy) key on the book, if it is still free
+fn twin_of_legacy<'a>(keys: impl Iterator<Item = &'a String>, taken: impl Fn(&str) -> bool) -> Option<String> {
+    for k in keys {
+        if k.len() == 32 && k.bytes().all(|b| b.is_ascii_hexdigit()) {
+            let t = format!("{}-{}-{}-{}-{}", &k[0..8], &k[8..12], &k[12..16], &k[16..20], &k[20..32]);
+            if !taken(&t) {
+                return Some(t);
+            }
+        }
+    }
+    None
 }
 
 fn model_id_ok(id: &str) -> bool {
